@@ -1206,3 +1206,176 @@ Proof.
   rewrite E in H. cbn [lres_sres] in H. destruct (nroute n) as [rt|]; [|discriminate].
   inversion H as [H0]. symmetry in H0. revert H0. apply spec_lookup_short_no_tsr. simpl. lia.
 Qed.
+
+(* ------------------------------------------------------------------ *)
+(* S: a registered route that matches neither the request nor its slash-adjusted form is irrelevant *)
+(* ------------------------------------------------------------------ *)
+From FoxRoute Require SpecSound SpecSound2.
+
+Lemma select_none_acc fuel cs s h acc acc' : List.length s < fuel -> h <= List.length s ->
+  select fuel cs s h acc = None -> select fuel cs s h acc' = None.
+Proof.
+  intros Hf Hh H. pose proof (SpecSound.select_char fuel cs s h acc Hf Hh) as H1. rewrite H in H1. cbn in H1.
+  pose proof (SpecSound.select_char fuel cs s h acc' Hf Hh) as H2.
+  destruct (select fuel cs s h acc') as [[p vs]|]; [|reflexivity].
+  cbn in H2. destruct H2 as (k & vals & _ & _ & Hk & HM & _). destruct (H1 k vals Hk HM).
+Qed.
+
+Lemma try_splits_ext_ok {A} (F F' : bytes -> bytes -> option A) s : forall k i,
+  (forall j, i <= j < i + k -> split_ok s j = true -> F (firstn j s) (skipn j s) = F' (firstn j s) (skipn j s)) ->
+  try_splits k i s F = try_splits k i s F'.
+Proof.
+  induction k as [|k IH]; intros i H; [reflexivity|]. rewrite !try_splits_S.
+  rewrite (IH (S i)) by (intros j Hj; apply H; lia).
+  destruct (split_ok s i) eqn:E; [|reflexivity]. rewrite (H i) by (auto; lia). reflexivity.
+Qed.
+
+Lemma adv_static_single c k : adv_static c [k] = [] \/ exists k', adv_static c [k] = [k'].
+Proof.
+  unfold adv_static. simpl. destruct (toks k) as [|[d|nm|nm] t]; simpl; auto.
+  destruct (Ascii.eqb c d); simpl; eauto.
+Qed.
+Lemma adv_param_single k : adv_param [k] = [] \/ exists k', adv_param [k] = [k'].
+Proof. unfold adv_param. simpl. destruct (toks k) as [|[d|nm|nm] t]; simpl; eauto. Qed.
+Lemma adv_catch_single k : adv_catch [k] = [] \/ exists k', adv_catch [k] = [k'].
+Proof. unfold adv_catch. simpl. destruct (toks k) as [|[d|nm|nm] t]; simpl; eauto. Qed.
+
+Lemma orelse_none {A} (a : option A) f : orelse a f = None -> a = None /\ f tt = None.
+Proof. destruct a; simpl; [discriminate|auto]. Qed.
+Lemma orelse_eq {A} (a a' : option A) f f' : a = a' -> f tt = f' tt -> orelse a f = orelse a' f'.
+Proof. intros -> H. destruct a'; simpl; auto. Qed.
+
+Lemma select_irrelevant : forall fuel cs1 k cs2 s h acc, List.length s < fuel -> h <= List.length s ->
+  select fuel [k] s h [] = None ->
+  select fuel (cs1 ++ k :: cs2) s h acc = select fuel (cs1 ++ cs2) s h acc.
+Proof.
+  induction fuel as [|f IH]; intros cs1 k cs2 s h acc Hf Hh Hk; [lia|].
+  destruct s as [|c r].
+  - cbn [select] in *. unfold leaf in *. rewrite !filter_app. simpl in *.
+    destruct (toks k); [discriminate|]. reflexivity.
+  - rewrite !SpecSound.select_unfold in *. simpl in Hf, Hh.
+    apply orelse_none in Hk. destruct Hk as [HA Hk]. apply orelse_none in Hk. destruct Hk as [HB HC].
+    assert (Hgen : forall (adv : list cand -> list cand) s' h' acc' acc0,
+              (forall a b, adv (a ++ b) = adv a ++ adv b) ->
+              (adv [k] = [] \/ exists k', adv [k] = [k']) ->
+              List.length s' < f -> h' <= List.length s' ->
+              select f (adv [k]) s' h' acc0 = None ->
+              select f (adv (cs1 ++ k :: cs2)) s' h' acc' = select f (adv (cs1 ++ cs2)) s' h' acc').
+    { intros adv s' h' acc' acc0 Happ Hs1 Hl' Hh' Hn.
+      change (k :: cs2) with ([k] ++ cs2). rewrite !Happ.
+      destruct Hs1 as [->|(k' & E)]; [reflexivity|]. rewrite E in *. apply IH; auto.
+      eapply select_none_acc; eauto. }
+    apply orelse_eq; [|apply orelse_eq].
+    + destruct (Ascii.eqb c "{" || Ascii.eqb c "*"); [reflexivity|].
+      apply (Hgen (adv_static c) r (pred h) acc []); auto using adv_static_app, adv_static_single; lia.
+    + pose proof (SpecSound.pval_length h (c :: r)) as Hpl. simpl in Hpl.
+      destruct (SpecSound.pval h (c :: r)) as [|v0 vv] eqn:Ev; [reflexivity|].
+      apply (Hgen adv_param _ _ _ [v0 :: vv]); auto using adv_param_app, adv_param_single.
+      * rewrite skipn_length. simpl. simpl in Hpl. lia.
+      * rewrite skipn_length. cbn [List.length] in *.
+        destruct (Nat.eq_dec h 0) as [->|Hn]; [lia|].
+        pose proof (SpecSound.pval_length_h h (c :: r) Hn) as Hph. rewrite Ev in Hph. simpl in Hph. lia.
+    + destruct (negb (Nat.eqb h 0)); [reflexivity|].
+      apply try_splits_ext_ok. intros j Hj Hs.
+      pose proof (SpecSound.try_splits_char (fun v rest => select f (adv_catch [k]) rest 0 [v]) (c :: r)
+                    (List.length (c :: r)) 1) as Hc.
+      cbv beta in HC. rewrite HC in Hc. specialize (Hc j Hj Hs). cbv beta in Hc.
+      apply (Hgen adv_catch _ 0 _ [firstn j (c :: r)]); auto using adv_catch_app, adv_catch_single; try lia.
+      rewrite skipn_length. cbn [List.length] in *. lia.
+Qed.
+
+Lemma mode_h_le host path hm : SpecSound2.mode_h host hm <= List.length (SpecSound2.mode_text host path hm).
+Proof. unfold SpecSound2.mode_h, SpecSound2.mode_text. destruct hm; [rewrite app_length|]; lia. Qed.
+
+Lemma mode_text_fuel host path hm : List.length (SpecSound2.mode_text host path hm) < spec_fuel host path.
+Proof. unfold SpecSound2.mode_text, spec_fuel. destruct hm; [rewrite app_length|]; lia. Qed.
+
+Lemma select_in_irrelevant pats1 p pats2 host path hm :
+  select_in [p] host path hm = None ->
+  select_in (pats1 ++ p :: pats2) host path hm = select_in (pats1 ++ pats2) host path hm.
+Proof.
+  intros Hp. destruct (SpecSound2.in_mode hm p) eqn:Em.
+  2:{ unfold select_in. change (fun p0 => if hm then negb (is_path_pattern p0) else is_path_pattern p0) with (SpecSound2.in_mode hm).
+      rewrite !filter_app. simpl. rewrite Em. reflexivity. }
+  assert (Hcase : (hm = true /\ host = []) \/ (hm = true -> host <> [])).
+  { destruct hm; [|right; discriminate]. destruct host; [left; auto|right; discriminate]. }
+  destruct Hcase as [[-> ->]|Hh]; [reflexivity|].
+  rewrite !SpecSound2.select_in_eq in * by exact Hh.
+  rewrite !filter_app, !map_app in *. simpl in *. rewrite Em in *. simpl in *.
+  apply select_irrelevant; auto using mode_h_le, mode_text_fuel.
+Qed.
+
+Theorem spec_lookup_irrelevant pats1 p pats2 host path :
+  (forall hm, select_in [p] host path hm = None /\ select_tsr_in [p] host path hm = None) ->
+  spec_lookup (pats1 ++ p :: pats2) host path = spec_lookup (pats1 ++ pats2) host path.
+Proof.
+  intros Hp.
+  assert (Hd : forall hm, select_in (pats1 ++ p :: pats2) host path hm = select_in (pats1 ++ pats2) host path hm)
+    by (intros hm; apply select_in_irrelevant; apply Hp).
+  assert (Ht : forall hm, select_tsr_in (pats1 ++ p :: pats2) host path hm = select_tsr_in (pats1 ++ pats2) host path hm).
+  { intros hm. destruct (le_lt_dec 2 (List.length path)) as [Hl|Hl].
+    2:{ rewrite !SpecSound2.select_tsr_in_short by exact Hl. reflexivity. }
+    destruct (Hp hm) as [_ Hpt]. rewrite !SpecSound2.select_tsr_in_eq in * by exact Hl.
+    destruct (ends_with_slash path); [apply select_in_irrelevant; exact Hpt|].
+    rewrite !filter_app in *. simpl in *. destruct (static_slash_end p); [|reflexivity].
+    apply select_in_irrelevant. exact Hpt. }
+  unfold spec_lookup. rewrite !Hd, !Ht.
+  set (hr := fun l => negb (Spec.is_nil (filter (fun p0 : bytes => negb (is_path_pattern p0)) l))).
+  change (negb (Spec.is_nil (filter (fun p0 : bytes => negb (is_path_pattern p0)) (pats1 ++ p :: pats2)))) with (hr (pats1 ++ p :: pats2)).
+  change (negb (Spec.is_nil (filter (fun p0 : bytes => negb (is_path_pattern p0)) (pats1 ++ pats2)))) with (hr (pats1 ++ pats2)).
+  destruct (hr (pats1 ++ pats2)) eqn:E2.
+  - assert (hr (pats1 ++ p :: pats2) = true) as ->; [|reflexivity].
+    unfold hr in *. rewrite filter_app in *. simpl.
+    destruct (filter (fun p0 => negb (is_path_pattern p0)) pats1); [|reflexivity].
+    simpl in *. destruct (negb (is_path_pattern p)); [reflexivity|exact E2].
+  - (* no hostname route besides (possibly) p: the hostname attempt finds nothing *)
+    assert (Hn : forall l, hr l = false -> forall pth, select_in l host pth true = None).
+    { intros l Hl pth. unfold hr in Hl. unfold select_in.
+      destruct (filter (fun p0 => negb (is_path_pattern p0)) l); [|discriminate].
+      destruct host; [reflexivity|]. apply StaticEquiv2.select_nil. }
+    assert (Hnt : select_tsr_in (pats1 ++ pats2) host path true = None).
+    { destruct (le_lt_dec 2 (List.length path)) as [Hl|Hl].
+      2:{ apply SpecSound2.select_tsr_in_short. exact Hl. }
+      rewrite SpecSound2.select_tsr_in_eq by exact Hl. destruct (ends_with_slash path); apply Hn; auto.
+      unfold hr in *. destruct (filter (fun p0 => negb (is_path_pattern p0)) (pats1 ++ pats2)) eqn:E; [|discriminate].
+      assert (forall l g, filter (fun p0 : bytes => negb (is_path_pattern p0)) l = [] ->
+                filter (fun p0 : bytes => negb (is_path_pattern p0)) (filter g l) = []) as Hff.
+      { induction l as [|x l IHl]; intros g Hx; simpl in *; auto.
+        destruct (negb (is_path_pattern x)) eqn:Ex; [discriminate|]. destruct (g x); simpl; rewrite ?Ex; auto. }
+      rewrite Hff by exact E. reflexivity. }
+    rewrite (Hn _ E2), Hnt. destruct (hr (pats1 ++ p :: pats2) && negb (Spec.is_nil host)); reflexivity.
+Qed.
+
+(* ------------------------------------------------------------------ *)
+(* corollaries                                                          *)
+(* ------------------------------------------------------------------ *)
+Lemma m2t_tsr_sound t host path l kvs :
+  pwf [] t -> starts_with "/" (nkey t) = true -> path <> [] -> okpath path = true ->
+  m2t (has_suffix_slash path) None t path = TN (Some (l, kvs)) ->
+  SpecSound2.TsrMatch (map rpat (routes_of_node t)) host path false (lpat l) (map snd kvs).
+Proof.
+  intros Hwf Hsl Hne Hok Hm. apply SpecSound2.select_tsr_in_sound.
+  rewrite (m2t_eq_spec_tsr t host path _ Hwf Hsl Hne Hok Hm). reflexivity.
+Qed.
+
+Lemma m2t_tsr_complete t host path p vals :
+  pwf [] t -> starts_with "/" (nkey t) = true -> path <> [] -> okpath path = true ->
+  SpecSound2.TsrMatch (map rpat (routes_of_node t)) host path false p vals ->
+  m2t (has_suffix_slash path) None t path <> TN None.
+Proof.
+  intros Hwf Hsl Hne Hok HT Hm. apply SpecSound2.select_tsr_in_complete in HT. apply HT.
+  rewrite (m2t_eq_spec_tsr t host path _ Hwf Hsl Hne Hok Hm). reflexivity.
+Qed.
+
+Theorem roots_lookup_irrelevant_route r m t r' m' t' pats1 p pats2 host path fuel :
+  path_only_root r m t -> pwf [] t -> path_only_root r' m' t' -> pwf [] t' ->
+  method_patterns r m = pats1 ++ p :: pats2 -> method_patterns r' m' = pats1 ++ pats2 ->
+  (forall hm, select_in [p] host path hm = None /\ select_tsr_in [p] host path hm = None) ->
+  path <> [] -> okpath path = true -> m2_fuel path t <= fuel -> m2_fuel path t' <= fuel ->
+  lres_sres (roots_lookup fuel r m host path false [] []) = lres_sres (roots_lookup fuel r' m' host path false [] []).
+Proof.
+  intros Hr Hwf Hr' Hwf' Hp1 Hp2 Hirr Hne Hok Hf Hf'.
+  rewrite (roots_lookup_eq_spec_tsr r m t host path fuel Hr Hwf Hne Hok Hf).
+  rewrite (roots_lookup_eq_spec_tsr r' m' t' host path fuel Hr' Hwf' Hne Hok Hf').
+  rewrite Hp1, Hp2. f_equal. apply spec_lookup_irrelevant. exact Hirr.
+Qed.
